@@ -524,6 +524,14 @@ def run(tier: str, seed: int) -> Result:
 
 def replay(rp: dict[str, Any]) -> bool:
     d = rp["detail"]
+    if "stage" in d:
+        res = Result("C19", "model_checking")
+        surface_sweep(res)
+        bad = [v for v in res.violations if v.key == rp["key"]]
+        print(rp["key"], "->", "still violated" if bad else "holds")
+        for v in bad:
+            print(" ", v.clause)
+        return not bad
     h = factory(tuple(d["seed"]))
     w = h.fresh()
     try:
